@@ -32,6 +32,20 @@ def inject_task(shard, first_tid, ntraces, seed, nvars_choices, steps, tmpdir,
                 samples=samples)
 
 
+def failed_load_task(shard, first_tid, ntraces, seed, tmpdir):
+    from harness.drivers import autoref_hist
+    events = 0
+    fps = set()
+    with open(shard, 'w') as f:
+        for i in range(ntraces):
+            tr = autoref_hist.failed_load_history(first_tid + i, seed * 911 + first_tid + i, tmpdir)
+            f.write(tr.dumps() + '\n')
+            events += len(tr.events)
+            fps |= checklib.event_fingerprints(tr.events)
+            tr.release_all()
+    return dict(shard=shard, traces=ntraces, events=events, fingerprints=fps, samples=[])
+
+
 def run(chk):
     q = chk.quick
     chk.rule = (
@@ -59,11 +73,15 @@ def run(chk):
                   steps=80 if q else 150, tmpdir=tmp, dyn=True)
              for i in range(n)]
     sh, _ = chk.generate(inject_task, tasks)
-    chk.validate('TraceBDD', 'TraceBDD.cfg', sh)
+    fl = [dict(shard=chk.shard('fl_c17_%d' % i), first_tid=17800000 + i * 100, ntraces=6 if q else 120,
+               seed=chk.seed, tmpdir=os.path.join(chk.dir, 'tmp')) for i in range(4)]
+    fsh, _ = chk.generate(failed_load_task, fl)
+    chk.own_clauses = tuple(chk.own_clauses) + ('decl.views',)
+    chk.validate('TraceBDD', 'TraceBDD.cfg', sh + fsh)
     # file faults: a load that cannot open its file, then valid dump/load transfers
     # (the C12 driver); "subsequent operations behave normally" = the transfer is accepted
     from harness.drivers import xfer
-    chk.own_clauses = ('io.rejected', 'io.receiver_ref', 'io.receiver_canonical')
+    chk.own_clauses = tuple(chk.own_clauses) + ('io.rejected', 'io.receiver_ref', 'io.receiver_canonical')
     xt = [dict(shard=chk.shard('x_c17_%d' % i), tid0=17000000 + i * 100,
                seed=chk.seed * 19 + i, ntraces=4 if q else 100, tmpdir=tmp) for i in range(8)]
     xs, _ = chk.generate(xfer.c12_task, xt)
